@@ -36,8 +36,8 @@ func vxH_C16_close() {
 	co2.OnEvent = func(ev Event) {
 		if ev.Kind == EventKindBatchExecute || ev.Kind == EventKindMergerProgress {
 			c.m.Lock()
-			if c.stackDirtyTop != nil && len(c.stackDirtyTop.a) > maxTop {
-				maxTop = len(c.stackDirtyTop.a)
+			if h := vxDeepHeight(c.stackDirtyTop); h > maxTop {
+				maxTop = h
 			}
 			c.m.Unlock()
 		}
@@ -48,7 +48,7 @@ func vxH_C16_close() {
 	if vxChoose(2) == 1 {
 		pre := &segment{}
 		pre.mutate(OperationSet, []byte{'p'}, []byte{'v'})
-		c.stackDirtyTop = &segmentStack{options: c.options, refs: 1, a: []Segment{pre}}
+		c.stackDirtyTop = &segmentStack{options: c.options, refs: 1, a: []Segment{pre}, numBatches: 1}
 		// optionally the background goroutines start only after both
 		// writers are blocked (ExecuteBatch before Start is legal)
 		lateStart = vxChoose(2) == 1
@@ -58,6 +58,7 @@ func vxH_C16_close() {
 	}
 	var wg sync.WaitGroup
 	errs := make([]error, 2)
+	childOnly := vxChoose(2) == 1
 	for w := 0; w < 2; w++ {
 		wg.Add(1)
 		w := w
@@ -68,7 +69,13 @@ func vxH_C16_close() {
 				errs[w] = berr
 				return
 			}
-			b.Set([]byte{'w', byte('0' + w)}, []byte{'v'})
+			if childOnly {
+				// a batch that only touches a child collection
+				cb, _ := b.NewChildCollectionBatch("c", BatchOptions{TotalOps: 1, TotalKeyValBytes: 8})
+				cb.Set([]byte{'w', byte('0' + w)}, []byte{'v'})
+			} else {
+				b.Set([]byte{'w', byte('0' + w)}, []byte{'v'})
+			}
 			errs[w] = c.ExecuteBatch(b, WriteOptions{})
 		}()
 	}
@@ -262,4 +269,19 @@ func vxH_C16_pingFlood() {
 	vxAssert("get-ok", gerr == nil)
 	wg.Wait()
 	vxAssert("close-ok", c.Close() == nil)
+}
+
+// vxDeepHeight: the largest number of segments in the stack or in any of
+// its (grand)child stacks - a lower bound on the number of batches in it.
+func vxDeepHeight(ss *segmentStack) int {
+	if ss == nil {
+		return 0
+	}
+	h := len(ss.a)
+	for _, cs := range ss.childSegStacks {
+		if ch := vxDeepHeight(cs); ch > h {
+			h = ch
+		}
+	}
+	return h
 }
